@@ -42,6 +42,9 @@ func (g *gen) aclRequest(targets []string, mode int) *Req {
 	}
 	rq.Prefix = pf
 	k := 1 + r.Pick(5, 3, 2)
+	if r.Chance(1, 25) {
+		k = 0 // no subscription at all: the single-target check must still reject
+	}
 	for i := 0; i < k; i++ {
 		if r.Chance(1, 30) {
 			rq.Subs = append(rq.Subs, nil)
@@ -94,6 +97,28 @@ func (g *gen) aclCase(thorough bool) Case {
 	case 2:
 		c.User = strp("u3") // no row: everything denied
 	}
+	// in 1/5 of the cases the operator changes the table during the script
+	// (grants and revocations): the per-response check must follow
+	dynamic := c.HasACL && r.Chance(1, 5)
+	aclset := func() Step {
+		rows := append([]ACLRow{}, c.ACL...)
+		for _, u := range []string{"u1", "u2"} {
+			t := []string{"t1", "t2", "t3"}[r.Intn(3)]
+			found := false
+			for i := range rows {
+				if rows[i].User == u && rows[i].Target == t {
+					rows[i].Allow = !rows[i].Allow
+					found = true
+				}
+			}
+			if !found {
+				rows = append(rows, ACLRow{User: u, Target: t, Allow: true})
+			}
+		}
+		c.ACL = rows
+		return Step{K: "aclset", Rows: rows}
+	}
+	initialACL := append([]ACLRow{}, c.ACL...)
 	pathOrigins := r.Chance(1, 6)
 	ninit := 2 + r.Intn(8)
 	for i := 0; i < ninit; i++ {
@@ -142,7 +167,9 @@ func (g *gen) aclCase(thorough bool) Case {
 			ne += r.Intn(8)
 		}
 		for i := 0; i < ne; i++ {
-			if r.Chance(1, 5) {
+			if dynamic && r.Chance(1, 3) {
+				c.Ops = append(c.Ops, aclset())
+			} else if r.Chance(1, 5) {
 				burst() // concurrent update streams across allowed and denied targets
 			} else {
 				c.Ops = append(c.Ops, g.cacheStep(targets, pathOrigins, true))
@@ -155,9 +182,13 @@ func (g *gen) aclCase(thorough bool) Case {
 			for i := 0; i < ne; i++ {
 				c.Ops = append(c.Ops, g.cacheStep(targets, pathOrigins, true))
 			}
+			if dynamic && r.Chance(1, 2) {
+				c.Ops = append(c.Ops, aclset())
+			}
 			c.Ops = append(c.Ops, Step{K: "poll"})
 		}
 	}
+	c.ACL = initialACL // the table the server starts with
 	return c
 }
 
